@@ -41,6 +41,9 @@ var f10 = []rstmt{
 	edge("a.b -> a.c", P("a"), P("b"), P("c"), false, true, nil),
 	edge("b -> a", nil, P("b"), P("a"), false, true, nil),
 	edge("a.b -> b", nil, P("a", "b"), P("b"), false, true, nil), // declared in the root, attached to a nested object
+	edge("A.b -> a.c", P("A"), P("b"), P("c"), false, true, nil),  // common container spelled in two letter cases within one key
+	eref("(A.b -> a.c)[0]: null", P("a"), P("b"), P("c"), false, true, 0, "null", ""),
+	eref("(a.b -> A.c)[0]: w", P("a"), P("b"), P("c"), false, true, 0, "label", "w"),
 }
 
 var f11 = []rstmt{
